@@ -25,8 +25,10 @@ def sortRanges (rs : List PosRange) : List PosRange :=
 
 def featOps (op : String) (args : List String) (_impl : String) : Option String :=
   match op, args with
-  | "PUB", [t] =>
-    -- the ranges of the diagnostics the broker publishes for a freshly opened document
+  | "PUB", t :: _ =>
+    -- the ranges of the diagnostics the broker publishes for a document with this text (however the server got
+    -- to it: freshly opened, re-opened after a close, or replaced by a full-text change; extra arguments name that
+    -- history for the implementation side)
     withDoc t fun d =>
       match d.errors with
       | .error e => panicStr e
